@@ -54,3 +54,53 @@ package rpc
 //@   at call Write#1: assert frame-is-what-is-written: sameBacking(callarg0, mb) && len(callarg0) == len(mb)
 //@   at after call Write#1: ghost wrote := callresult0
 //@   ensures success-means-whole-frame-written: err == nil ==> wrote == 4 + l
+
+// ---- C14: what a chord.Server handler's error looks like to the caller of a RemoteNode method
+
+//@ func WrapError(err error) (r error)
+//@   safety off
+//@   opt frame=off
+//@   requires err != nil
+//@   ensures is-a-twirp-error-with-the-same-message: r != nil && implements(r, twirp.Error) && cast(r, twirp.Error).Msg() == err.Error()
+
+//@ func WrapErrorKV(key string, err error) (r error)
+//@   safety off
+//@   opt frame=off
+//@   requires err != nil
+//@   ensures is-a-twirp-error-with-the-same-message: r != nil && implements(r, twirp.Error) && cast(r, twirp.Error).Msg() == err.Error()
+
+// the network, as twirp's documentation describes it: message and code survive, the Go error chain does not
+//@ func verifWire(err error) (r error)
+//@   trusted
+//@   requires err != nil && implements(err, twirp.Error)
+//@   ensures message-survives: r != nil && implements(r, twirp.Error) && cast(r, twirp.Error).Msg() == cast(err, twirp.Error).Msg()
+//@   ensures error-chain-is-lost: forall t error {errors.Is(r, t)} :: errors.Is(r, t) ==> t == r
+//@   ensures is-a-new-error-value: forall i int {errors.Is(r, chord.retryableErrs[i])} :: (0 <= i && i < len(chord.retryableErrs)) ==> r != chord.retryableErrs[i]
+
+//@ func verifErrorRoundTrip(err error) (r error)
+//@   safety off
+//@   opt frame=off
+//@   requires package-initialised: chord.registryOK() && chord.retryableOK()
+//@   requires err != nil
+//@   ensures roundtrip-ErrJoinInvalidState: err == chord.ErrJoinInvalidState ==> (r == chord.ErrJoinInvalidState && chord.ErrorIsRetryable(r) == chord.ErrorIsRetryable(err))
+//@   ensures roundtrip-ErrJoinTransferFailure: err == chord.ErrJoinTransferFailure ==> (r == chord.ErrJoinTransferFailure && chord.ErrorIsRetryable(r) == chord.ErrorIsRetryable(err))
+//@   ensures roundtrip-ErrJoinInvalidSuccessor: err == chord.ErrJoinInvalidSuccessor ==> (r == chord.ErrJoinInvalidSuccessor && chord.ErrorIsRetryable(r) == chord.ErrorIsRetryable(err))
+//@   ensures roundtrip-ErrLeaveInvalidState: err == chord.ErrLeaveInvalidState ==> (r == chord.ErrLeaveInvalidState && chord.ErrorIsRetryable(r) == chord.ErrorIsRetryable(err))
+//@   ensures roundtrip-ErrLeaveTransferFailure: err == chord.ErrLeaveTransferFailure ==> (r == chord.ErrLeaveTransferFailure && chord.ErrorIsRetryable(r) == chord.ErrorIsRetryable(err))
+//@   ensures roundtrip-ErrKVStaleOwnership: err == chord.ErrKVStaleOwnership ==> (r == chord.ErrKVStaleOwnership && chord.ErrorIsRetryable(r) == chord.ErrorIsRetryable(err))
+//@   ensures roundtrip-ErrKVPendingTransfer: err == chord.ErrKVPendingTransfer ==> (r == chord.ErrKVPendingTransfer && chord.ErrorIsRetryable(r) == chord.ErrorIsRetryable(err))
+//@   ensures roundtrip-ErrNodeGone: err == chord.ErrNodeGone ==> (r == chord.ErrNodeGone && chord.ErrorIsRetryable(r) == chord.ErrorIsRetryable(err))
+//@   ensures roundtrip-ErrNodeNotStarted: err == chord.ErrNodeNotStarted ==> (r == chord.ErrNodeNotStarted && chord.ErrorIsRetryable(r) == chord.ErrorIsRetryable(err))
+//@   ensures roundtrip-ErrNodeNoSuccessor: err == chord.ErrNodeNoSuccessor ==> (r == chord.ErrNodeNoSuccessor && chord.ErrorIsRetryable(r) == chord.ErrorIsRetryable(err))
+//@   ensures roundtrip-ErrNodeNil: err == chord.ErrNodeNil ==> (r == chord.ErrNodeNil && chord.ErrorIsRetryable(r) == chord.ErrorIsRetryable(err))
+//@   ensures roundtrip-ErrDuplicateJoinerID: err == chord.ErrDuplicateJoinerID ==> (r == chord.ErrDuplicateJoinerID && chord.ErrorIsRetryable(r) == chord.ErrorIsRetryable(err))
+//@   ensures roundtrip-ErrKVSimpleConflict: err == chord.ErrKVSimpleConflict ==> (r == chord.ErrKVSimpleConflict && chord.ErrorIsRetryable(r) == chord.ErrorIsRetryable(err))
+//@   ensures roundtrip-ErrKVPrefixConflict: err == chord.ErrKVPrefixConflict ==> (r == chord.ErrKVPrefixConflict && chord.ErrorIsRetryable(r) == chord.ErrorIsRetryable(err))
+//@   ensures roundtrip-ErrKVLeaseConflict: err == chord.ErrKVLeaseConflict ==> (r == chord.ErrKVLeaseConflict && chord.ErrorIsRetryable(r) == chord.ErrorIsRetryable(err))
+//@   ensures roundtrip-ErrKVLeaseExpired: err == chord.ErrKVLeaseExpired ==> (r == chord.ErrKVLeaseExpired && chord.ErrorIsRetryable(r) == chord.ErrorIsRetryable(err))
+//@   ensures roundtrip-ErrKVLeaseInvalidTTL: err == chord.ErrKVLeaseInvalidTTL ==> (r == chord.ErrKVLeaseInvalidTTL && chord.ErrorIsRetryable(r) == chord.ErrorIsRetryable(err))
+//@   ensures roundtrip-ErrKVHashFnChanged: err == chord.ErrKVHashFnChanged ==> (r == chord.ErrKVHashFnChanged && chord.ErrorIsRetryable(r) == chord.ErrorIsRetryable(err))
+//@   ensures deadline-stays-retryable: err == context.DeadlineExceeded ==> chord.ErrorIsRetryable(r)
+//@   ensures wrapped-retryable-stays-retryable: (chord.ErrorIsRetryable(err) && !has(chord.errorStrMap, err.Error())) ==> chord.ErrorIsRetryable(r)
+//@   ensures unknown-errors-stay-non-retryable: (!chord.ErrorIsRetryable(err) && !has(chord.errorStrMap, err.Error())) ==> !chord.ErrorIsRetryable(r)
+//@   ensures unknown-errors-stay-unknown: (err != nil && !has(chord.errorStrMap, err.Error())) ==> !has(chord.errorStrMap, cast(r, twirp.Error).Msg())
